@@ -1,9 +1,27 @@
-(* C14 property theorems: statements only; proofs live in Proofs/C14.v *)
+(* C14 property theorems: statements only; proofs live in Proofs/C14*.v *)
 From Coq Require Import List Permutation String.
-From TS Require Import Model.Str Model.Outcome Model.Unicode Model.Syntax Model.Types Model.Parse Model.Reconcile Model.Collect Model.MultiFile.
+From TS Require Import Model.Str Model.Outcome Model.Unicode Model.Syntax Model.Rename Model.Types Model.Parse Model.Reconcile Model.Collect Model.Lang.Common Model.MultiFile.
+From TS Require Model.Writer.
 From TS Require Import Spec.C14Spec.
-From TS Require Proofs.C14.
+From TS Require Proofs.C14 Proofs.C14Front Proofs.C14Main Proofs.C14Imports Proofs.C14Witness.
 Import ListNotations.
+Local Open Scope string_scope.
+
+(* Vocabulary.
+   ws : list ws_entry       the .rs files the walker found: path components, syn-level AST, syn::parse_str
+   ho_file ho_crate hc      iteration orders of the three hash containers that can reach the output (per-file
+                            import set, per-crate import set, CrateTypes); `oracle_ok h` = h rearranges its argument.
+                            Every theorem holds for every such order.
+   arrivals                 what the per-file parsers sent to the collector (parse_workspace = Ok arrivals: no
+                            syn error, no panic)
+   multi_crates             collector + reconcile_aliases: the BTreeMap<CrateName, ParsedData> of main.rs
+   multi_plan               one (file name, crate, import list, data) per crate: what write_multiple_files generates
+   c14_infos uc T ws        (Proofs.C14Main) what the specification is told about each file: its path, its syntax,
+                            and its annotated items as the SINGLE-FILE front end parses them
+   ign                      ParseContext::ignored_types = the language's ignored_reference_types (the keys of
+                            type_mappings for TypeScript and Kotlin) = the specification's `mapped` *)
+
+(* ---------------------------------------------------------------- crate names and file names *)
 
 (* find_crate_name: for every path with a component `src` that has something above it, the crate is the
    component above the LAST `src`, with dashes replaced by underscores *)
@@ -12,3 +30,258 @@ Theorem C14_find_crate_name_last_src :
     find_crate_name (pre ++ above :: SRC :: post) = Some (replace_char ch_dash ch_us above).
 Proof. exact Proofs.C14.find_crate_name_last_src. Qed.
 Print Assumptions C14_find_crate_name_last_src.
+
+(* on EVERY path the model's reverse scan is the specification's crate_of ... *)
+Theorem C14_find_crate_name_spec :
+  forall components, find_crate_name components = crate_of components.
+Proof. exact Proofs.C14.find_crate_name_spec. Qed.
+Print Assumptions C14_find_crate_name_spec.
+
+(* ... which is the relational definition: some `above :: src :: post` split with no further `src` in post *)
+Theorem C14_crate_of_iff :
+  forall components c, crate_of components = Some c <-> is_crate_of components c.
+Proof. exact Proofs.C14.crate_of_iff. Qed.
+Print Assumptions C14_crate_of_iff.
+
+(* no path outside every `src` directory belongs to a crate *)
+Theorem C14_find_crate_name_no_src :
+  forall components, ~ In SRC components -> find_crate_name components = None.
+Proof. exact Proofs.C14.find_crate_name_no_src. Qed.
+Print Assumptions C14_find_crate_name_no_src.
+
+(* a crate name never contains a dash *)
+Theorem C14_find_crate_name_dashes :
+  forall components c, find_crate_name components = Some c -> ~ In ch_dash c.
+Proof. exact Proofs.C14.find_crate_name_dashes. Qed.
+Print Assumptions C14_find_crate_name_dashes.
+
+(* output_file_name: <crate>.<ext> outside Swift, PascalCase of the crate for Swift (for crate names with a
+   lowercase letter: to_pascal_case treats all-uppercase words specially) *)
+Theorem C14_output_file_name_spec :
+  forall l c, l <> Swift -> output_file_name l c = file_name14 l c.
+Proof. exact Proofs.C14.output_file_name_spec. Qed.
+Print Assumptions C14_output_file_name_spec.
+
+Theorem C14_swift_file_name_spec :
+  forall c, conventional_crate c = true -> output_file_name Swift c = file_name14 Swift c.
+Proof. exact Proofs.C14.swift_file_name_spec. Qed.
+Print Assumptions C14_swift_file_name_spec.
+
+Theorem C14_output_file_name_injective :
+  forall l a b, l <> Swift -> output_file_name l a = output_file_name l b -> a = b.
+Proof. exact Proofs.C14.output_file_name_injective. Qed.
+Print Assumptions C14_output_file_name_injective.
+
+(* finding C14-swift-file-collision: two crates, one Swift file name *)
+Theorem C14_swift_file_collision_refuted :
+  lit "a_b" <> lit "a__b" /\ output_file_name Swift (lit "a_b") = output_file_name Swift (lit "a__b").
+Proof. exact Proofs.C14.swift_file_collision_refuted. Qed.
+Print Assumptions C14_swift_file_collision_refuted.
+
+(* ---------------------------------------------------------------- (1) partition *)
+
+(* For every workspace, every --target-os list, every language and all iteration orders:
+   there is one output file per crate and the crates are pairwise different; each file is named
+   output_file_name of its crate; a crate has a file iff one of the source files whose path lies in it
+   (find_crate_name) yields something; and the file of crate c holds exactly (as a multiset of declarations:
+   kind, Rust name, generated name) the annotated items of the source files of crate c - so every parsed type
+   lies in the file named from its crate and in no other. *)
+Theorem C14_partition :
+  forall (uc : unicode) (T ign : list str) (ho_file ho_crate : list imported -> list imported)
+         (hc : crate_types -> crate_types) (l : lang) (ws : list ws_entry) (arrivals : list (str * parsed)),
+    parse_workspace uc T ign ho_file ws = Ok arrivals ->
+    let plan := multi_plan l hc (multi_crates ho_crate arrivals) in
+    NoDup (map op_crate plan) /\
+    (forall p, In p plan -> op_file p = output_file_name l (op_crate p)) /\
+    (forall c, In c (map op_crate plan) <->
+       exists e pd0, In e ws /\ find_crate_name (we_path e) = Some c /\ parse_file uc (we_tstr e) T (we_file e) = Ok (Some pd0)) /\
+    (forall p, In p plan ->
+       Permutation (map c14_decl (items_of (op_data p)))
+                   (map c14_decl (crate_items (Proofs.C14Main.c14_infos uc T ws) (op_crate p)))).
+Proof. intros uc T ign ho_file ho_crate hc l ws arrivals H. exact (Proofs.C14Main.partition_plan uc T ign ho_file l ho_crate hc ws arrivals H). Qed.
+Print Assumptions C14_partition.
+
+(* outside Swift no two crates share an output file (for Swift see C14_swift_file_collision_refuted) *)
+Theorem C14_partition_files_distinct :
+  forall (uc : unicode) (T ign : list str) (ho_file ho_crate : list imported -> list imported)
+         (hc : crate_types -> crate_types) (l : lang) (ws : list ws_entry) (arrivals : list (str * parsed)),
+    parse_workspace uc T ign ho_file ws = Ok arrivals -> l <> Swift ->
+    NoDup (map op_file (multi_plan l hc (multi_crates ho_crate arrivals))).
+Proof. intros uc T ign ho_file ho_crate hc l ws arrivals H Hl. eapply Proofs.C14Main.plan_files_distinct; eassumption. Qed.
+Print Assumptions C14_partition_files_distinct.
+
+(* the declarations of all files together are those of the single-file run (`-o`) on the same sources
+   (the files under some <crate>/src, parsed with multi_file = false, collected, reconciled) *)
+Theorem C14_partition_same_as_single_file :
+  forall (uc : unicode) (T ign : list str) (ho_file ho_crate : list imported -> list imported)
+         (hc : crate_types -> crate_types) (l : lang) (ws : list ws_entry) (arrivals : list (str * parsed)) (singles : list parsed),
+    parse_workspace uc T ign ho_file ws = Ok arrivals ->
+    parse_workspace_single uc T (crate_entries ws) = Ok singles ->
+    Permutation (flat_map (fun p => map c14_decl (items_of (op_data p))) (multi_plan l hc (multi_crates ho_crate arrivals)))
+                (map c14_decl (items_of (single_file_input singles))).
+Proof. intros uc T ign ho_file ho_crate hc l ws arrivals singles H HS. eapply Proofs.C14Main.partition_single; eassumption. Qed.
+Print Assumptions C14_partition_same_as_single_file.
+
+(* whenever the multi-file front end succeeds, so does the single-file front end on the same files, with the
+   same items file by file (only the import candidates differ) *)
+Theorem C14_single_file_front_end_agrees :
+  forall (uc : unicode) (T ign : list str) (ho_file : list imported -> list imported) (ws : list ws_entry) (arrivals : list (str * parsed)),
+    parse_workspace uc T ign ho_file ws = Ok arrivals ->
+    parse_workspace_single uc T (crate_entries ws) = Ok (map (fun a => Proofs.C14Front.core (snd a)) arrivals).
+Proof. exact Proofs.C14Main.parse_workspace_single_rel. Qed.
+Print Assumptions C14_single_file_front_end_agrees.
+
+(* what is handed to the writer when every crate generates: one text per plan entry, under the plan's file name *)
+Theorem C14_files_written :
+  forall (St : Type) (gen : St -> str -> scoped -> parsed -> outcome (str * St)) (plan : list out_plan) (st st' : St),
+    snd (generate_crates gen st plan) = Ok st' ->
+    map fst (fst (generate_crates gen st plan)) = map op_file plan /\
+    Forall (fun r => exists text, snd r = Writer.Generated text) (fst (generate_crates gen st plan)).
+Proof. intros St gen plan st st'. exact (Proofs.C14Main.generate_crates_files gen plan st st'). Qed.
+Print Assumptions C14_files_written.
+
+(* ---------------------------------------------------------------- (2) imports are sound, unconditionally *)
+
+(* every imported (module, name): the module is another crate's and its type table holds the name; for any
+   iteration order of CrateTypes that yields only entries of the map, any import set, any crates *)
+Theorem C14_imports_sound :
+  forall (hc : crate_types -> crate_types) (cs : crates) (cn : str) (pd : parsed) (k n : str),
+    (forall l x, In x (hc l) -> In x l) ->
+    In (k, n) (scoped_pairs (crate_imports hc cs cn pd)) ->
+    k <> cn /\ exists names, In (k, names) (all_types cs) /\ In n names.
+Proof. exact Proofs.C14.imports_sound. Qed.
+Print Assumptions C14_imports_sound.
+
+(* in the specification's terms: no import of any generated file names the file itself or a type that is not
+   the generated name of an annotated item of a source file of the module's crate *)
+Theorem C14_imports_sound_spec :
+  forall (uc : unicode) (T ign : list str) (ho_file ho_crate : list imported -> list imported)
+         (hc : crate_types -> crate_types) (ws : list ws_entry) (arrivals : list (str * parsed)),
+    parse_workspace uc T ign ho_file ws = Ok arrivals ->
+    forall c pd, (forall l x, In x (hc l) -> In x l) ->
+      unsound_imports (Proofs.C14Main.c14_infos uc T ws) c
+        (scoped_pairs (crate_imports hc (multi_crates ho_crate arrivals) c pd)) = [].
+Proof. intros uc T ign ho_file ho_crate hc ws arrivals H c pd Hh. eapply Proofs.C14Imports.imports_sound_spec; eassumption. Qed.
+Print Assumptions C14_imports_sound_spec.
+
+(* ---------------------------------------------------------------- (3) imports are complete on dom_C14 *)
+
+(* For every workspace and all iteration orders: every reference the specification finds in a source file of
+   crate c to a type of another generated crate d (judge_crate) that lies in dom_C14 - introduced by a plain /
+   grouped / nested `use d::..::N` or a path d::..::N, nothing else in the file brings in N from elsewhere,
+   the target not serde-renamed, the name unique across crates, d and N outside the ignore lists, N not
+   type-mapped and not a name of the file itself - is imported from d in c's generated file.
+   (uc agrees with ASCII below 128; ign is both ParseContext::ignored_types and the specification's `mapped`.) *)
+Theorem C14_imports_complete :
+  forall (uc : unicode), unicode_ok uc ->
+  forall (T ign : list str) (ho_file ho_crate : list imported -> list imported) (hc : crate_types -> crate_types)
+         (ws : list ws_entry) (arrivals : list (str * parsed)),
+    parse_workspace uc T ign ho_file ws = Ok arrivals ->
+    Proofs.C14Front.oracle_ok ho_file -> Proofs.C14Front.oracle_ok ho_crate -> Proofs.C14Front.oracle_ok hc ->
+    forall c pd v,
+      In (c, pd) (multi_crates ho_crate arrivals) ->
+      In v (judge_crate (Proofs.C14Main.c14_infos uc T ws) ign c
+              (scoped_pairs (crate_imports hc (multi_crates ho_crate arrivals) c pd))) ->
+      rv_dom v = true -> rv_imported v = true.
+Proof. intros uc Huc T ign ho_file ho_crate hc ws arrivals H H1 H2 H3 c pd v. eapply Proofs.C14Imports.imports_complete; eassumption. Qed.
+Print Assumptions C14_imports_complete.
+
+(* the predicate the check evaluates on the implementation's import lists holds of the model's, for every
+   generated file of every workspace: sound, and complete on dom_C14 (the finding classes lie outside dom_C14) *)
+Theorem C14_imports_good :
+  forall (uc : unicode), unicode_ok uc ->
+  forall (T ign : list str) (ho_file ho_crate : list imported -> list imported) (hc : crate_types -> crate_types)
+         (ws : list ws_entry) (arrivals : list (str * parsed)),
+    parse_workspace uc T ign ho_file ws = Ok arrivals ->
+    Proofs.C14Front.oracle_ok ho_file -> Proofs.C14Front.oracle_ok ho_crate -> Proofs.C14Front.oracle_ok hc ->
+    forall c pd,
+      In (c, pd) (multi_crates ho_crate arrivals) ->
+      good_C14 (Proofs.C14Main.c14_infos uc T ws) ign c
+        (scoped_pairs (crate_imports hc (multi_crates ho_crate arrivals) c pd)) = true.
+Proof. intros uc Huc T ign ho_file ho_crate hc ws arrivals H H1 H2 H3 c pd. eapply Proofs.C14Imports.imports_good; eassumption. Qed.
+Print Assumptions C14_imports_good.
+
+(* the domain of C14_imports_complete contains no input of a recorded finding class: a reference that is in
+   dom_C14 and not imported is a NEW violation, never one of the known ones *)
+Theorem C14_dom_excludes_known :
+  forall ws mapped s c d n, dom_C14 ws mapped s c d n = true -> known_C14 ws s c d n = None.
+Proof. exact Proofs.C14Imports.dom_excludes_known. Qed.
+Print Assumptions C14_dom_excludes_known.
+
+(* the hypotheses are satisfiable: a/src/lib.rs defines A1, my-crate/src/lib.rs says `use a::A1;` and uses it -
+   the reference is in dom_C14, in no finding class, and imported *)
+Theorem C14_imports_complete_nonvacuous :
+  exists arrivals pd v,
+    parse_workspace uc_exec [] [] (fun l => l) Proofs.C14Witness.ws_plain = Ok arrivals /\
+    In (lit "my_crate", pd) (multi_crates (fun l => l) arrivals) /\
+    In v (judge_crate (Proofs.C14Main.c14_infos uc_exec [] Proofs.C14Witness.ws_plain) [] (lit "my_crate")
+            (scoped_pairs (crate_imports (fun l => l) (multi_crates (fun l => l) arrivals) (lit "my_crate") pd))) /\
+    rv_dom v = true /\ rv_known v = None /\ rv_imported v = true.
+Proof. exact Proofs.C14Witness.imports_complete_nonvacuous. Qed.
+Print Assumptions C14_imports_complete_nonvacuous.
+
+(* ---------------------------------------------------------------- finding classes of the unchanged tree *)
+
+(* C14-renamed-import: `use a::A2;` with A2 #[serde(rename = "A2Renamed")] - used, never imported *)
+Theorem C14_renamed_import_refuted :
+  exists arrivals pd v,
+    parse_workspace uc_exec [] [] (fun l => l) Proofs.C14Witness.ws_renamed = Ok arrivals /\
+    In (lit "my_crate", pd) (multi_crates (fun l => l) arrivals) /\
+    In v (judge_crate (Proofs.C14Main.c14_infos uc_exec [] Proofs.C14Witness.ws_renamed) [] (lit "my_crate")
+            (scoped_pairs (crate_imports (fun l => l) (multi_crates (fun l => l) arrivals) (lit "my_crate") pd))) /\
+    rv_known v = Some "C14-renamed-import" /\ rv_imported v = false.
+Proof. exact Proofs.C14Witness.renamed_import_refuted. Qed.
+Print Assumptions C14_renamed_import_refuted.
+
+(* C14-glob: `use a::*;` imports nothing *)
+Theorem C14_glob_refuted :
+  exists arrivals pd v,
+    parse_workspace uc_exec [] [] (fun l => l) Proofs.C14Witness.ws_glob = Ok arrivals /\
+    In (lit "my_crate", pd) (multi_crates (fun l => l) arrivals) /\
+    In v (judge_crate (Proofs.C14Main.c14_infos uc_exec [] Proofs.C14Witness.ws_glob) [] (lit "my_crate")
+            (scoped_pairs (crate_imports (fun l => l) (multi_crates (fun l => l) arrivals) (lit "my_crate") pd))) /\
+    rv_known v = Some "C14-glob" /\ rv_imported v = false.
+Proof. exact Proofs.C14Witness.glob_refuted. Qed.
+Print Assumptions C14_glob_refuted.
+
+(* C14-same-name: S in crates a and c, `use zz::S;` - under the reversed iteration order of CrateTypes the
+   import comes from ./c, not from the first defining crate *)
+Theorem C14_same_name_refuted :
+  exists arrivals pd v,
+    parse_workspace uc_exec [] [] (fun l => l) Proofs.C14Witness.ws_same_name = Ok arrivals /\
+    In (lit "my_crate", pd) (multi_crates (fun l => l) arrivals) /\
+    In v (judge_crate (Proofs.C14Main.c14_infos uc_exec [] Proofs.C14Witness.ws_same_name) [] (lit "my_crate")
+            (scoped_pairs (crate_imports (@rev _) (multi_crates (fun l => l) arrivals) (lit "my_crate") pd))) /\
+    rv_known v = Some "C14-same-name" /\ rv_imported v = false.
+Proof. exact Proofs.C14Witness.same_name_refuted. Qed.
+Print Assumptions C14_same_name_refuted.
+
+(* C14-glob-order / C14-same-name: the import list is a function of the iteration order.  w_run ho_crate hc ws c
+   (Proofs.C14Witness) = the model's import pairs for crate c and the specification's verdicts on them. *)
+Theorem C14_glob_order_refuted :
+  Proofs.C14Witness.w_run (fun l => l) (fun l => l) Proofs.C14Witness.ws_glob_explicit (lit "my_crate") =
+    Some ([(lit "a", lit "A1"); (lit "a", lit "A2Renamed"); (lit "a", lit "A3")], [(lit "A1", lit "a", true, None, true)]) /\
+  Proofs.C14Witness.w_run (@rev _) (fun l => l) Proofs.C14Witness.ws_glob_explicit (lit "my_crate") =
+    Some ([(lit "a", lit "A1")], [(lit "A1", lit "a", true, None, true)]).
+Proof. exact Proofs.C14Witness.glob_order_eval. Qed.
+Print Assumptions C14_glob_order_refuted.
+
+Theorem C14_same_name_order_refuted :
+  Proofs.C14Witness.w_run (fun l => l) (fun l => l) Proofs.C14Witness.ws_same_name (lit "my_crate") =
+    Some ([(lit "a", lit "S")], [(lit "S", lit "a", false, Some "C14-same-name", true)]) /\
+  Proofs.C14Witness.w_run (fun l => l) (@rev _) Proofs.C14Witness.ws_same_name (lit "my_crate") =
+    Some ([(lit "c", lit "S")], [(lit "S", lit "a", false, Some "C14-same-name", false)]).
+Proof. exact Proofs.C14Witness.same_name_eval. Qed.
+Print Assumptions C14_same_name_order_refuted.
+
+(* C14-glob-const: k defines K1 and `const MyConst`; `use k::*; use k::K1;` - the effective glob imports MyConst from
+   ./k (const_imports singles it out), while TypeScript writes that const as MY_CONST (typescript.rs write_const) *)
+Theorem C14_glob_const_refuted :
+  exists verdicts,
+    Proofs.C14Witness.w_run (fun l => l) (fun l => l) Proofs.C14Witness.ws_glob_const (lit "my_crate") =
+      Some ([(lit "k", lit "K1"); (lit "k", lit "MyConst")], verdicts) /\
+    const_imports (Proofs.C14Main.c14_infos uc_exec [] Proofs.C14Witness.ws_glob_const) [(lit "k", lit "K1"); (lit "k", lit "MyConst")]
+      = [(lit "k", lit "MyConst")] /\
+    str_to_uppercase uc_exec (to_snake_case uc_exec (lit "MyConst")) = lit "MY_CONST".
+Proof. exact Proofs.C14Witness.glob_const_refuted. Qed.
+Print Assumptions C14_glob_const_refuted.
